@@ -29,7 +29,11 @@ def efun(x):
     Returns:
         float: x/[exp(x)-1]
     """
-    return x / (save_exp(x) - 1.0)
+    is_small = jnp.abs(x) < 1e-6
+    # Removable 0/0 at x = 0. The unselected branch of `jnp.where` is still evaluated
+    # (and differentiated), so it must not see the singular input.
+    safe_x = jnp.where(is_small, 1.0, x)
+    return jnp.where(is_small, 1.0 - x / 2.0, safe_x / (save_exp(safe_x) - 1.0))
 
 
 class Leak(Channel):
